@@ -278,3 +278,161 @@ class Machine:
         if m:
             return self.set(X(m.group(1)), self.load(self.get(X(m.group(3))) + self.imm(m.group(2)), 4))
         raise Unmodelled("MIPS line: " + line)
+
+
+# ------------------------------------------------------------------------------------------------ C17: call sequences
+ADDR = z3.Function("symbol_address", z3.StringSort(), z3.IntSort())          # address a symbol name designates
+MEMAT = z3.Function("memory_at_symbol", z3.StringSort(), z3.IntSort())       # the word stored there (unrelated to ADDR)
+
+
+class CallMachine(Machine):
+    """adds Intel-syntax x86 and the ARM64 forms CallPatch emits.  Records, at the call instruction: sp, the register
+    file and memory, so that the calling convention can be stated on them.  `operand_errors` collects operands the
+    assembler cannot encode (out-of-range immediates, malformed numbers): each is a z3 condition that must be false."""
+
+    def __init__(self, ctx, abi, syntax, callee_pops=None):
+        Machine.__init__(self, ctx, abi, syntax)
+        self.at_call = None
+        self.operand_errors = []        # (description, z3 condition under which the operand is NOT encodable)
+        self.callee_pops = callee_pops  # bytes the callee removes from the stack (callee-cleanup conventions)
+        self.wbits = 8 * self.w
+
+    def sym_operand(self, tok):
+        """'name[rip]' or 'name' (a bare symbol) -> symbol name, else None"""
+        t = tok.strip()
+        if t.endswith("[rip]"):
+            t = t[:-5]
+        if re.fullmatch(r"[A-Za-z_.$][\w.$@]*", t) and t.lower() not in self.names and t.lower() not in self.sp_names:
+            return t
+        return None
+
+    def int_operand(self, tok, what, lo=None, hi=None, radix_prefix=""):
+        """an integer operand as the assembler would read the text; records range / syntax conditions"""
+        tok = tok.strip()
+        h = self.hole_of(tok[len(radix_prefix):]) if tok.startswith(radix_prefix) else None
+        if h is None and radix_prefix:
+            h0 = self.hole_of(tok)
+            if h0 is not None:
+                raise Unmodelled("expected prefix %r before the number in %r" % (radix_prefix, what))
+        if h is not None:
+            v, spec = h
+            if isinstance(v, SymReg):
+                raise Unmodelled("register where a number is expected")
+            t = zint(v)
+            if spec == "x":
+                # format(v, 'x') prints a minus sign for negative numbers: '0x' + '-5' is not a number
+                self.operand_errors.append(("%s: hexadecimal text of a negative number" % what, t < 0))
+            elif spec not in ("", "d"):
+                raise Unmodelled("format spec " + spec)
+            elif radix_prefix:
+                raise Unmodelled("decimal hole after a radix prefix")
+        else:
+            try:
+                t = z3.IntVal(int(tok, 0))
+            except ValueError:
+                raise Unmodelled("number " + tok)
+        if lo is not None:
+            self.operand_errors.append(("%s: immediate below %d" % (what, lo), t < lo))
+        if hi is not None:
+            self.operand_errors.append(("%s: immediate above %d" % (what, hi - 1), t >= hi))
+        return t
+
+    def value_operand(self, tok, what, lo, hi):
+        """source operand of mov/push: immediate or memory-at-symbol; returns (value term, kind)"""
+        s = self.sym_operand(tok)
+        if s is not None:
+            return MEMAT(z3.StringVal(s)), ("load", s)          # Intel syntax: a bare symbol / sym[rip] is a memory operand
+        m = re.fullmatch(r"offset\s+(\S+)", tok.strip(), re.I)
+        if m and self.sym_operand(m.group(1)):
+            return ADDR(z3.StringVal(m.group(1))), ("addr", m.group(1))
+        return self.int_operand(tok, what, lo, hi), ("imm",)
+
+    def do_call(self, target):
+        self.at_call = dict(sp=self.sp, reg=self.reg, mem=self.mem, target=target)
+        # the callee: may change caller-saved state; returns; pops `callee_pops` bytes if the convention says so
+        if self.callee_pops is not None:
+            self.sp = self.sp + self.callee_pops
+
+    def step_intel(self, line):
+        t = line.split(None, 1)
+        op = t[0].lower()
+        args = [a.strip() for a in t[1].split(",")] if len(t) > 1 else []
+        W = self.wbits
+        if op in ("sub", "add") and len(args) == 2:
+            r = self.reg_index(args[0])
+            k = self.int_operand(args[1], line, -(1 << 31), 1 << 31)
+            self.flags = self.ctx.int("flags_after_arith", inp=False)
+            return self.set(r, self.get(r) - k if op == "sub" else self.get(r) + k)
+        if op == "mov" and len(args) == 2:
+            r = self.reg_index(args[0])
+            # mov r64, imm64 / mov r32, imm32: any value representable in the register
+            v, kind = self.value_operand(args[1], line, -(1 << (W - 1)), 1 << W)
+            self.last_src = kind
+            return self.set(r, v)
+        if op == "push" and len(args) == 1:
+            # push imm32 (sign-extended to the operand size); push m64/m32
+            v, kind = self.value_operand(args[0], line, -(1 << 31), (1 << 31) if W == 64 else (1 << 32))
+            self.last_src = kind
+            return self.push(v)
+        if op == "call" and len(args) == 1 and self.sym_operand(args[0]):
+            return self.do_call(self.sym_operand(args[0]))
+        raise Unmodelled("Intel line: " + line)
+
+    def step_arm64(self, line):
+        X = lambda tok: self.reg_index(tok)
+        two64 = 1 << 64
+        m = re.fullmatch(r"(sub|add) sp, sp, #(\S+)", line)
+        if m:
+            k = self.int_operand(m.group(2), line, 0, 1 << 24)      # add/sub (immediate): 12 bits, optionally shifted by 12
+            self.operand_errors.append((line + ": immediate not encodable as imm12 / imm12<<12",
+                                        z3.And(k >= 4096, z3.Or(k % 4096 != 0, k >= (1 << 24)))))
+            self.sp = self.sp - k if m.group(1) == "sub" else self.sp + k
+            return
+        m = re.fullmatch(r"mov (\S+), #(\S+)", line)
+        if m:
+            tok = m.group(2)
+            if tok.startswith("-0x"):
+                v = -self.int_operand(tok[1:], line, radix_prefix="0x")          # '-' applied to a well-formed hexadecimal number
+            elif tok.startswith("0x"):
+                v = self.int_operand(tok, line, radix_prefix="0x")
+            else:
+                v = self.int_operand(tok, line)
+            # MOV (wide immediate / inverted wide immediate) for |v| <= 0xFFFF is always encodable
+            self.operand_errors.append((line + ": mov immediate outside the MOVZ/MOVN 16-bit forms used here", z3.Or(v < -0xFFFF, v > 0xFFFF)))
+            return self.set(X(m.group(1)), v % two64)
+        m = re.fullmatch(r"movz (\S+), #(\S+)", line)
+        if m:
+            v = self.int_operand(m.group(2), line, 0, 1 << 16, radix_prefix="0x" if m.group(2).startswith("0x") else "")
+            return self.set(X(m.group(1)), v)
+        m = re.fullmatch(r"movk (\S+), #(\S+), lsl #(\d+)", line)
+        if m:
+            v = self.int_operand(m.group(2), line, 0, 1 << 16, radix_prefix="0x" if m.group(2).startswith("0x") else "")
+            s = int(m.group(3))
+            if s not in (0, 16, 32, 48):
+                raise Unmodelled("movk shift " + line)
+            r = X(m.group(1))
+            old = self.get(r)
+            return self.set(r, old - ((old / (1 << s)) % (1 << 16)) * (1 << s) + v * (1 << s))
+        m = re.fullmatch(r"adrp (\S+), (\S+)", line)
+        if m:
+            self.pending_adrp = (m.group(1), m.group(2))
+            return self.set(X(m.group(1)), ADDR(z3.StringVal(m.group(2))) - ADDR(z3.StringVal(m.group(2))) % 4096)
+        m = re.fullmatch(r"add (\S+), (\S+), #:lo12:(\S+)", line)
+        if m:
+            return self.set(X(m.group(1)), self.get(X(m.group(2))) + ADDR(z3.StringVal(m.group(3))) % 4096)
+        m = re.fullmatch(r"str (\S+), \[sp, #(\S+)\]", line)
+        if m:
+            k = self.int_operand(m.group(2), line, 0, 32768)
+            self.sp_aligned_at_access.append(self.sp % 16 == 0)
+            return self.store(self.sp + k, self.get(X(m.group(1))), 8)
+        m = re.fullmatch(r"bl (\S+)", line)
+        if m:
+            return self.do_call(m.group(1))
+        # pseudo-lines emitted by the *contract stubs* of _load_immediate / _load_symbol (modular verification)
+        m = re.fullmatch(r"LOADIMM (\S+), (\S+)", line)
+        if m:
+            return self.set(X(m.group(1)), self.int_operand(m.group(2), line) % two64)
+        m = re.fullmatch(r"LOADSYM (\S+), (\S+)", line)
+        if m:
+            return self.set(X(m.group(1)), ADDR(z3.StringVal(m.group(2))))
+        return Machine.step_arm64(self, line)
